@@ -17,8 +17,8 @@ import (
 	"testing"
 	"time"
 
-	quic "github.com/refraction-networking/uquic"
 	"github.com/quic-go/qpack"
+	quic "github.com/refraction-networking/uquic"
 	"github.com/refraction-networking/uquic/internal/verifmc/explore"
 	"github.com/refraction-networking/uquic/internal/verifmc/sim"
 	"github.com/refraction-networking/uquic/quicvarint"
